@@ -162,6 +162,23 @@ def cases_c04(rng, n):
             break
         if c not in chosen:
             chosen.append(c)
+    # several functions of one module, by-value and by-reference receivers in both orders; `?Send` with a by-value receiver
+    for order in ("value_first", "ref_first", "value_only_optout"):
+        for ty in ("Full", "Sns", "NoSync"):
+            decl, impls, sync, send, static = C04_TYPES[ty]
+            if order == "value_first":
+                inv = "#[entrait(pub Tr)]\npub mod m { use super::*; pub fn g0(deps: impl A, x: i64) -> i64 { x } pub fn g1(deps: &impl B) -> i64 { 1 } }"
+            elif order == "ref_first":
+                inv = "#[entrait(pub Tr)]\npub mod m { use super::*; pub fn g0(deps: &impl B) -> i64 { 1 } pub fn g1(deps: impl A, x: i64) -> i64 { x } pub fn g2(deps: &impl A) -> i64 { 2 } }"
+            else:
+                inv = "#[entrait(pub Tr, ?Send)]\npub async fn f(deps: impl A + B, x: i64) -> i64 { let k = std::rc::Rc::new(x); std::future::ready(()).await; *k }"
+            setup = inv + "\n" + decl + "\npub fn need<T: Tr>() {}"
+            client = "pub fn client() { need::<Impl<%s>>(); }" % ty
+            fam = "avail/order/%s/%s" % (order, ty)
+            if sync and send:
+                out.append(SCase("C04", fam, lib=setup + "\n" + client))
+            else:
+                out.append(SCase("C04", fam, lib=setup, lib_neg=client))
     for pl, bounds, by_value, ty in chosen[:max(n, len(seen))]:
         decl, impls, sync, send, static = C04_TYPES[ty]
         accept = set(bounds) <= impls and sync and static and (send or not by_value)
@@ -205,7 +222,7 @@ def cases_c05(rng, n):
 def cases_c06(rng, n):
     out = []
     kinds = ["self", "ref", "borrow"]
-    probes = ["provider", "none", "wrong_way", "nosync"]
+    probes = ["provider", "none", "wrong_way", "nosync", "typed_receiver_not_send"]
     combos = [(k, p) for k in kinds for p in probes]
     for i in range(n):
         kind, probe = combos[i % len(combos)]
@@ -229,7 +246,16 @@ def cases_c06(rng, n):
             nosync = "pub struct Ap { p: P, c: std::cell::Cell<i64> } impl std::borrow::Borrow<dyn Tq> for Ap { fn borrow(&self) -> &(dyn Tq + 'static) { &self.p } }"
         client = "pub fn client() { need::<Impl<Ap>>(); }"
         fam = "forward/%s/%s" % (kind, probe)
-        if probe == "provider":
+        if probe == "typed_receiver_not_send":
+            # `self: &Self` is a reference receiver: only `Sync + 'static` may be demanded of T, a Sync type that is not Send qualifies
+            setup2 = ("#[entrait(%s)]\npub trait Tq { fn m0(self: &Self, x: i64) -> i64; }\npub struct P; impl Tq for P { fn m0(self: &Self, x: i64) -> i64 { x } }\n"
+                      "pub fn need<T: Tq>() {}\n") % attr
+            g = "pub g: std::marker::PhantomData<std::sync::MutexGuard<'static, ()>>"
+            ap = {"self": "pub struct Ap { %s } impl Tq for Ap { fn m0(self: &Self, x: i64) -> i64 { x } }" % g,
+                  "ref": "pub struct Ap { p: P, %s } impl AsRef<dyn Tq> for Ap { fn as_ref(&self) -> &(dyn Tq + 'static) { &self.p } }" % g,
+                  "borrow": "pub struct Ap { p: P, %s } impl std::borrow::Borrow<dyn Tq> for Ap { fn borrow(&self) -> &(dyn Tq + 'static) { &self.p } }" % g}[kind]
+            out.append(SCase("C06", fam, lib=setup2 + ap + "\n" + client))
+        elif probe == "provider":
             out.append(SCase("C06", fam, lib=setup + good + "\n" + client))
         elif probe == "none":
             out.append(SCase("C06", fam, lib=setup + "pub struct Ap;", lib_neg=client))
@@ -375,7 +401,7 @@ def cases_c12(rng, n):
 def cases_c14(rng, n):
     out = []
     for i in range(n):
-        kind = ["fn", "fn_async", "mod", "conc", "trait", "inversion", "nodeps"][i % 7]
+        kind = ["fn", "fn_async", "mod", "conc", "trait", "inversion", "nodeps", "fn_async_lt", "inversion_lt"][i % 9]
         r = rng.choice([0, 1, 2, 3])        # allocations made by the function itself
         work = "let mut acc = 0i64; for j in 0..%d { let b = Box::new(x + j); acc += *b; } acc" % r
         meas = ("let a0 = allocs(); let r0 = %s; let a1 = allocs(); let r1 = %s; let a2 = allocs();\n"
@@ -410,6 +436,18 @@ def cases_c14(rng, n):
                    "#[entrait]\nimpl TvImpl for X { pub %sfn m<D: A>(deps: &D, x: i64) -> i64 { %s } }\n"
                    "pub struct App; impl A for Impl<App> {} impl DelegateTv<App> for App { type Target = X; }\n"
                    "pub fn run() { let app = Impl::new(App); %s }") % (a, a, work, meas % (w % "X::m(&app, 3)", w % "app.m(3)"))
+        elif kind == "fn_async_lt":
+            # an explicit lifetime that occurs in the return type
+            lib = ("#[entrait(pub Tr)]\npub async fn f<'t>(deps: &impl A, t: &'t [i64], x: i64) -> Option<&'t i64> { std::future::ready(()).await; let _ = { %s }; t.first() }\n"
+                   "pub struct App; impl A for Impl<App> {}\n"
+                   "pub fn run() { let app = Impl::new(App); let tab = [5i64, 6]; %s }") % (
+                work, meas % ("block_on(f(&app, &tab, 3)).copied()", "block_on(app.f(&tab, 3)).copied()"))
+        elif kind == "inversion_lt":
+            lib = ("#[entrait(TvImpl, delegate_by = DelegateTv)]\npub trait Tv { async fn m<'t>(&self, t: &'t [i64], x: i64) -> Option<&'t i64>; }\npub struct X;\n"
+                   "#[entrait]\nimpl TvImpl for X { pub async fn m<'t, D: A>(deps: &D, t: &'t [i64], x: i64) -> Option<&'t i64> { let _ = { %s }; t.first() } }\n"
+                   "pub struct App; impl A for Impl<App> {} impl DelegateTv<App> for App { type Target = X; }\n"
+                   "pub fn run() { let app = Impl::new(App); let tab = [5i64, 6]; %s }") % (
+                work, meas % ("block_on(X::m(&app, &tab, 3)).copied()", "block_on(app.m(&tab, 3)).copied()"))
         else:
             lib = ("#[entrait(pub Tr, no_deps)]\npub fn f(x: i64) -> i64 { %s }\npub struct App;\n"
                    "pub fn run() { let app = Impl::new(App); %s }") % (work, meas % ("f(3)", "app.f(3)"))
@@ -427,7 +465,7 @@ HOSTILE = ("pub struct Impl; pub struct Box; pub struct Pin; pub struct Option; 
 
 def cases_c19(rng, n, nostd=False):
     out = []
-    kinds = ["fn", "fn_async", "mod", "conc", "trait", "trait_ref", "trait_borrow", "inversion", "inversion_dyn", "named_send", "named_sync"]
+    kinds = ["fn", "fn_async", "mod", "conc", "trait", "trait_ref", "trait_borrow", "inversion", "inversion_dyn", "named_send", "named_sync", "macro_rules"]
     for i in range(n):
         kind = kinds[i % len(kinds)]
         E = "::entrait::entrait"
@@ -463,6 +501,12 @@ def cases_c19(rng, n, nostd=False):
                    "#[%s(ref)]\nimpl TvImpl for X { pub fn m<D>(deps: &D, x: i64) -> i64 { x + 1 } }\n"
                    "pub struct App { x: X } impl ::core::convert::AsRef<dyn TvImpl<App>> for App { fn as_ref(&self) -> &(dyn TvImpl<App> + 'static) { &self.x } }\n"
                    "pub fn call() -> i64 { Tv::m(&%s::new(App { x: X }), 4) }") % (E, E, I)
+        elif kind == "macro_rules":
+            # invoked from a macro_rules! macro: the trait name comes from the caller, a parameter is spelled in the macro body,
+            # and the invoking scope has an item of that very name; the forwarded argument must still be the parameter
+            pre = ""
+            lib = ("macro_rules! lookup { ($Trait:ident, $name:ident) => {\n#[%s(pub $Trait, no_deps)]\npub fn $name(fallback: fn() -> i64) -> i64 { fallback() + 1 }\n} }\n"
+                   "pub fn fallback() -> i64 { 70 }\npub fn four() -> i64 { 4 }\nlookup!(Tr, f);\npub struct App;\npub fn call() -> i64 { Tr::f(&%s::new(App), four) }") % (E, I)
         elif kind == "named_send":
             pre = ""
             lib = "#[%s(pub Send)]\npub fn send(deps: &impl %s, x: i64) -> i64 { x + 1 }\npub struct App; impl %s for %s<App> {}\npub fn call() -> i64 { Send::send(&%s::new(App), 4) }" % (E, A_, A_, I, I)
@@ -506,10 +550,11 @@ def cases_c10(rng, n):
         elif export == "export_false":
             opts.append("export = false")
         exporting = export in ("option", "variant")
+        tvis = rng.choice(["pub ", "pub ", "pub(crate) ", "", "pub(in crate) "])     # the trait's visibility must not matter
         if form == "fn":
-            inv = "#[%s(%s)]\npub fn foo<D>(deps: &D, x: i64) -> i64 { x }" % (macro, ", ".join(["pub Foo"] + opts))
+            inv = "#[%s(%s)]\npub fn foo<D>(deps: &D, x: i64) -> i64 { x }" % (macro, ", ".join([tvis + "Foo"] + opts))
         elif form == "mod":
-            inv = "#[%s(%s)]\npub mod m { use crate::*; pub fn foo<D>(deps: &D, x: i64) -> i64 { x } }" % (macro, ", ".join(["pub Foo"] + opts))
+            inv = "#[%s(%s)]\npub mod m { use crate::*; pub fn foo<D>(deps: &D, x: i64) -> i64 { x } }" % (macro, ", ".join([tvis + "Foo"] + opts))
         else:
             inv = "#[%s(%s)]\npub trait Foo { fn foo(&self, x: i64) -> i64; }" % (macro, ", ".join(opts))
         if mock in ("mockall", "mockall_false", "none"):
@@ -530,7 +575,8 @@ def cases_c10(rng, n):
 
 def cases_c11(rng, n):
     out = []
-    kinds = ["fn_mocked", "fn_unmocked", "nodeps_unmocked", "conc_not_unmockable", "mod_mocked", "mod_unmocked", "trait_mocked", "trait_not_unmockable"]
+    kinds = ["fn_mocked", "fn_unmocked", "nodeps_unmocked", "conc_not_unmockable", "mod_mocked", "mod_unmocked", "trait_mocked", "trait_not_unmockable",
+             "mod_cfg_unmocked"]
     for i in range(n):
         kind = kinds[i % len(kinds)]
         k = rng.choice([1, 2, 3])
@@ -566,6 +612,16 @@ def cases_c11(rng, n):
             lib = ("#[entrait_export(pub Foo, mock_api = FooMock)]\npub mod m { pub fn g0<D>(deps: &D, %s) -> i64 { 1000 + %s } pub fn g1<D>(deps: &D, %s) -> i64 { 2000 + %s } }\n"
                    "pub fn run() { use unimock::*; let u = Unimock::new_partial(()); let r0 = u.g0(%s); let r1 = u.g1(%s);\n"
                    "report({cid}, \"C11\", r0 == 1000 + %d && r1 == 2000 + %d, format!(\"{} {}\", r0, r1)); }") % (pl, val, pl, val, al, al, expect, expect)
+        elif kind == "mod_cfg_unmocked":
+            # functions of one signature, some behind a (true) cfg: every un-mocked method must still reach the function of its own name
+            names = ["g%d" % j for j in range(rng.choice([3, 4, 6]))]
+            gated = set(rng.sample(names[:-1], rng.choice([1, 2])))
+            fns = " ".join("%spub fn %s<D>(deps: &D, %s) -> i64 { %d + %s }" % ("#[cfg(not(any()))] " if nm in gated else "", nm, pl, 1000 * (j + 1), val)
+                           for j, nm in enumerate(names))
+            calls = " ".join("ok &= u.%s(%s) == %d; ok &= app.%s(%s) == %d;" % (nm, al, 1000 * (j + 1) + expect, nm, al, 1000 * (j + 1) + expect) for j, nm in enumerate(names))
+            lib = ("#[entrait_export(pub Foo, mock_api = FooMock)]\npub mod m { %s }\n"
+                   "pub fn run() { use unimock::*; let u = Unimock::new_partial(()); let app = Impl::new(()); let mut ok = true; %s\n"
+                   "report({cid}, \"C11\", ok, format!(\"gated {}\", \"%s\")); }") % (fns, calls, ",".join(sorted(gated)))
         elif kind == "trait_mocked":
             lib = ("#[entrait_export(mock_api = TqMock)]\npub trait Tq { fn m0(&self, %s) -> i64; fn m1(&self, %s) -> i64; }\n"
                    "pub fn run() { use unimock::*; let u = Unimock::new((TqMock::m0.each_call(matching!(%s)).returns(70i64), TqMock::m1.each_call(matching!(%s)).returns(71i64)));\n"
@@ -586,14 +642,14 @@ def build_cases(seed, tier):
     cases = []
     cases += cases_c04(rng, 70 * k)
     cases += cases_c05(rng, 12 * k)
-    cases += cases_c06(rng, 24 * k)
+    cases += cases_c06(rng, 30 * k)
     cases += cases_c13(rng, 72 * k)
     cases += cases_c12(rng, 21 * k)
-    cases += cases_c14(rng, 21 * k)
-    cases += cases_c19(rng, 11 * k)
-    cases += cases_c19(rng, 11, nostd=True)
+    cases += cases_c14(rng, 27 * k)
+    cases += cases_c19(rng, 12 * k)
+    cases += cases_c19(rng, 12, nostd=True)
     cases += cases_c10(rng, 60 * k)
-    cases += cases_c11(rng, 16 * k)
+    cases += cases_c11(rng, 27 * k)
     for i, c in enumerate(cases):
         c.cid = i
         if c.prop == "C13":
